@@ -2,6 +2,8 @@ import Sio.Props.C12
 #print axioms Sio.C12.step_confined
 #print axioms Sio.C12.step_confined_others
 #print axioms Sio.C12.hostile_run_confined
+#print axioms Sio.C12.bystander_unchanged
+#print axioms Sio.C12.still_serving
 #print axioms Sio.C12.undecodable_inert
 #print axioms Sio.C12.stray_binary_inert
 #print axioms Sio.C12.bounded_reserve
